@@ -52,7 +52,22 @@ pub fn run(opts: &Opts) -> Report {
                 threads.push(child);
             }
         }
-        let src = if rng.chance(1, 12) { "no-such-thread".to_string() } else { rng.pick(&threads).clone() };
+        // an id that names no thread: a plain unknown one, or a path alias of a real thread (as a file
+        // name in the cache directory it opens the real thread's files)
+        let src = match rng.below(12) {
+            0 => "no-such-thread".to_string(),
+            1 => {
+                rep.count("source_id_is_a_path_alias");
+                let real = rng.pick(&threads).clone();
+                match rng.below(4) {
+                    0 => format!("./{real}"),
+                    1 => format!("../continuity_streams/{real}"),
+                    2 => format!("{real}/."),
+                    _ => format!("x/../{real}"),
+                }
+            }
+            _ => rng.pick(&threads).clone(),
+        };
         let before = ts.frames();
         let before_bytes = ts.log_bytes();
         let src_frames: Vec<&Value> = before.iter().filter(|f| f["session_id"].as_str() == Some(src.as_str())).collect();
@@ -125,7 +140,7 @@ pub fn run(opts: &Opts) -> Report {
                     body["summary_artifact_id"] = json!(a);
                 }
             }
-            let uri = format!("/threads/{}/{}", src.replace('/', "%2F"), if is_branch { "branch" } else { "handoff" });
+            let uri = format!("/threads/{}/{}", src.replace('%', "%25").replace('/', "%2F"), if is_branch { "branch" } else { "handoff" });
             let (st, v) = rt.block_on(crate::http::call_json(&app.router, "POST", &uri, Some(body)));
             http_status = Some(st.as_u16());
             if st == axum::http::StatusCode::CREATED {
@@ -229,6 +244,10 @@ pub fn run(opts: &Opts) -> Report {
                     && cf[1]["type"] == if is_branch { "continuity_branched" } else { "continuity_handoff_created" };
                 if !shape_ok {
                     rep.oracle_failure("C10|child-prefix", "the new thread does not start with [created@0, lineage@1]", case.clone());
+                }
+                // the lineage record names a thread that exists
+                if !before.iter().any(|f| f["session_id"].as_str() == Some(src.as_str())) {
+                    rep.oracle_failure("C10|lineage-names-no-thread", &format!("a {} from '{src}' succeeded: the log holds no frame of a stream with that id", if is_branch { "branch" } else { "handoff" }), case.clone());
                 }
                 if *q > head {
                     rep.oracle_failure("C10|cut-out-of-range", &format!("recorded cut {q} beyond the source head {head}"), case.clone());
